@@ -2096,7 +2096,7 @@ func opcodeCheckMultiSig(op *ParsedOpcode, t *thread) error {
 		return err
 	}
 
-	numPubKeys := numKeys.Int()
+	numPubKeys := int(numKeys.Int64())
 	if numPubKeys < 0 {
 		return errs.NewError(errs.ErrInvalidPubKeyCount, "number of pubkeys %d is negative", numPubKeys)
 	}
@@ -2133,7 +2133,7 @@ func opcodeCheckMultiSig(op *ParsedOpcode, t *thread) error {
 		return err
 	}
 
-	numSignatures := numSigs.Int()
+	numSignatures := int(numSigs.Int64())
 	if numSignatures < 0 {
 		return errs.NewError(errs.ErrInvalidSignatureCount, "number of signatures %d is negative", numSignatures)
 	}
